@@ -548,6 +548,22 @@ def reg_line(c, transports, luser):
         "+".join(hx(t) for t in targets), " ".join(wtoks)), targets
 
 
+def regcli_line(c, transports, luser):
+    """the command line itself for the composed model (Driver/RcmdDrv.lean `regcli`): every -w / -x optarg as typed,
+    in order; the target list and the names each word registers are computed by C02's model of opt.c + hostlist.c"""
+    names = [transports[i] for i in c["loaded_ids"]]
+    opt = lambda v: "~" if v is None else hx(v)
+    evs = []
+    av = c["argv"][:len(c["argv"]) - len(c["cmd"])]
+    for i in range(0, len(av) - 1):
+        if av[i] == "-w":
+            evs.append("E=w:" + hx(av[i + 1]))
+        elif av[i] == "-x":
+            evs.append("E=x:" + hx(av[i + 1]))
+    return "regcli loaded=%s env=%s R=%s l=%s luser=%s %s" % (
+        "+".join(hx(n) for n in names), opt(c["envtype"]), opt(c["R"]), opt(c["l"]), hx(luser), " ".join(evs))
+
+
 def part_c(ctx, cov, dist, rng, repo, only=None):
     pool = preload.Pool(ctx)
     exe = os.path.join(repo, "src/pdsh/pdsh")
@@ -591,10 +607,20 @@ def part_c(ctx, cov, dist, rng, repo, only=None):
     text = "".join(l + "\n" for _, _, l, _ in recs)
     ml = ctx.model("rcmd", text, args=margs)
     sl = ctx.model("rcmd", text, args=["spec"])
+    # end to end: the same runs computed from the command line alone (only when the code registers the re-expanded
+    # names, which is what the composed model mirrors)
+    cl = ctx.model("rcmd", "".join(regcli_line(c, transports, luser) + "\n" for c, _, _, _ in recs), args=margs) \
+        if "reexpand" in margs else [None] * len(recs)
+    dist["reg_cli_composed"] = 0
     distinct = set()
-    for (c, r, line, targets), m, s in zip(recs, ml, sl):
+    for (c, r, line, targets), m, s, cm in zip(recs, ml, sl, cl):
         cov["evaluations"] += 1
         dist["reg"] += 1
+        if cm is not None:
+            dist["reg_cli_composed"] += 1
+            if cm != m:
+                ctx.disagreement("registry model fed by the check's expander vs composed with C02's hostlist model",
+                                 "from the expander `%s`, from the command line `%s`" % (m[:300], cm[:300]), {"gen": c})
         reg_branches(c, m, s, dist["branches"])
         log = [l.split() for l in r["log"] if l.startswith("rcmd ")]
         log.sort(key=lambda w: int(w[6]))
